@@ -5,7 +5,10 @@ clause of a three-clause predicate that is called between two alternatives-gener
 answer names the path taken."""
 import itertools
 
-LEAVES = ['m0', 'm1', 'm2', 'true', 'fail', 'cut']
+LEAVES = ['m0', 'm1', 'm2', 'true', 'fail', 'cut', 'is1', 'r2']
+# is1 = is1(Vprev): a test of the variable bound by the nearest preceding m-leaf (so conditions can depend on
+# earlier bindings); r2 = m2(Vprev): a second generator on that same variable (so bindings made - or wrongly kept -
+# by an earlier construct are observable)
 OPS = [',', ';', '->']
 
 
@@ -19,15 +22,21 @@ def shapes(n):
                 yield (l, r)
 
 
-def build(sh, li, oi):
+def build(sh, li, oi, state=None):
+    if state is None:
+        state = {'prev': None}
     if sh == 'L':
         kind, idx = next(li)
         if kind in ('true', 'fail', 'cut'):
             return (kind,)
+        if kind in ('is1', 'r2'):
+            v = state['prev'] if state['prev'] is not None else idx
+            return ('call', ('f', 'is1' if kind == 'is1' else 'm2', (('v', v),)))
+        state['prev'] = idx
         return ('call', ('f', kind, (('v', idx),)))
     op = next(oi)
-    l = build(sh[0], li, oi)
-    r = build(sh[1], li, oi)
+    l = build(sh[0], li, oi, state)
+    r = build(sh[1], li, oi, state)
     return (op, l, r)
 
 
@@ -55,6 +64,7 @@ def negations(b):
 
     def rec(b):
         yield ('not', b)
+        yield ('not', ('not', b))
         if b[0] in (',', ';', '->'):
             for x in rec(b[1]):
                 yield (b[0], x, b[2])
@@ -87,7 +97,7 @@ def program_for(body, n):
     vs = tuple(('v', i) for i in range(n))
     W, W2 = ('v', 90), ('v', 91)
     fact = lambda name, *a: (('f', name, tuple(a)), ('true',))   # noqa: E731
-    clauses = [fact('m1', ('i', 1)), fact('m2', ('i', 1)), fact('m2', ('i', 2)), fact('w', ('i', 1)), fact('w', ('i', 2)),
+    clauses = [fact('m1', ('i', 1)), fact('m2', ('i', 1)), fact('m2', ('i', 2)), fact('w', ('i', 1)), fact('w', ('i', 2)), fact('is1', ('i', 1)),
                (('f', 't', tuple(('a', 'y') for _ in range(n))), ('true',)),
                (('f', 't', vs), body),
                (('f', 't', tuple(('a', 'z') for _ in range(n))), ('true',)),
